@@ -12,6 +12,8 @@ import (
 //	sent_counted_on_error           — whether write() adds to the sent counter also when io.Copy failed
 //	metric_labels                   — the label values of the two counters, in order
 //	remove_flush_timeout_ns         — the WriteOutput timeout used while removing a toxic
+//	state_created_only_for_new_stubs — NewState() is reached for the stubs Start creates and the one AddToxic appends, never on a restart
+//	remove_cleanup_before_flush     — RemoveToxic runs Cleanup and returns on a closed stub before any forwarding past the removed toxic
 func extractLink(repo string, o *out) {
 	p, err := loadPkg(repo)
 	if err != nil {
@@ -127,6 +129,120 @@ func extractLink(repo string, o *out) {
 		}
 	}
 	o.emit("remove_flush_timeout_ns", "", "Z", rm, "5000000000", "", "")
+
+	// ---- per-connection toxic state (limit_data's byte counter) is created for NEW stubs only: NewState() is reached from Start
+	// (every stub is new) and from AddToxic for the stub it appends (index i := len(link.stubs)), never from the restarts of
+	// existing stubs in AddToxic / UpdateToxic / RemoveToxic, directly or through a helper method
+	created := ""
+	{
+		callsNewState := func(n ast.Node) bool {
+			return find(n, func(x ast.Node) bool {
+				c, ok := x.(*ast.CallExpr)
+				return ok && strings.HasSuffix(show(fs, c.Fun), ".NewState")
+			}) != nil
+		}
+		helpers := map[string]bool{}
+		for _, f := range p.files {
+			for _, d := range f.Decls {
+				fd, ok := d.(*ast.FuncDecl)
+				if !ok || fd.Body == nil || fd.Recv == nil {
+					continue
+				}
+				if fd.Name.Name != "Start" && fd.Name.Name != "AddToxic" && callsNewState(fd.Body) {
+					helpers[fd.Name.Name] = true
+				}
+			}
+		}
+		usesHelper := func(n ast.Node) []*ast.CallExpr {
+			var res []*ast.CallExpr
+			ast.Inspect(n, func(x ast.Node) bool {
+				if c, ok := x.(*ast.CallExpr); ok {
+					if sel, ok := c.Fun.(*ast.SelectorExpr); ok && helpers[sel.Sel.Name] {
+						res = append(res, c)
+					}
+				}
+				return true
+			})
+			return res
+		}
+		start, add := p.method("ToxicLink", "Start"), p.method("ToxicLink", "AddToxic")
+		upd, rem := p.method("ToxicLink", "UpdateToxic"), p.method("ToxicLink", "RemoveToxic")
+		if start != nil && add != nil && upd != nil && rem != nil && start.Body != nil && add.Body != nil && upd.Body != nil && rem.Body != nil {
+			ok := true
+			for _, fd := range []*ast.FuncDecl{upd, rem} {
+				if callsNewState(fd.Body) || len(usesHelper(fd.Body)) > 0 {
+					ok = false
+				}
+			}
+			// AddToxic: the new index is  i := len(link.stubs)  taken before the append
+			newIdx := ""
+			if a := find(add.Body, func(x ast.Node) bool {
+				as, ok := x.(*ast.AssignStmt)
+				return ok && len(as.Rhs) == 1 && show(fs, as.Rhs[0]) == "len(link.stubs)"
+			}); a != nil {
+				newIdx = show(fs, a.(*ast.AssignStmt).Lhs[0])
+			}
+			if newIdx == "" {
+				ok = false
+			}
+			ast.Inspect(add.Body, func(x ast.Node) bool {
+				if as, isA := x.(*ast.AssignStmt); isA && len(as.Rhs) == 1 && callsNewState(as.Rhs[0]) {
+					if show(fs, as.Lhs[0]) != "link.stubs["+newIdx+"].State" {
+						ok = false
+					}
+				}
+				return true
+			})
+			for _, c := range usesHelper(add.Body) {
+				if len(c.Args) == 0 || show(fs, c.Args[0]) != newIdx {
+					ok = false
+				}
+			}
+			if !callsNewState(start.Body) && len(usesHelper(start.Body)) == 0 {
+				ok = false // Start no longer creates the state at all
+			}
+			created = boolS(ok)
+		}
+	}
+	o.emit("state_created_only_for_new_stubs", "", "bool", created, "true", "", "")
+
+	// ---- RemoveToxic: Cleanup (which closes a timeout toxic's stub) runs, and the function returns when the stub got closed,
+	// before anything can be forwarded past the removed toxic: before the first WriteOutput and before the previous stub is interrupted
+	cbf := ""
+	if fd := p.method("ToxicLink", "RemoveToxic"); fd != nil && fd.Body != nil {
+		var cleanup, firstWrite, firstGo ast.Node
+		var retAfterClosed bool
+		ast.Inspect(fd.Body, func(n ast.Node) bool {
+			switch x := n.(type) {
+			case *ast.CallExpr:
+				f := show(fs, x.Fun)
+				if strings.HasSuffix(f, ".Cleanup") && cleanup == nil {
+					cleanup = x
+				}
+				if strings.HasSuffix(f, ".WriteOutput") && firstWrite == nil {
+					firstWrite = x
+				}
+			case *ast.GoStmt:
+				if firstGo == nil {
+					firstGo = x
+				}
+			case *ast.IfStmt:
+				// if link.stubs[i].Closed() { ...; return }   right after the Cleanup call
+				if cleanup != nil && x.Pos() > cleanup.End() && strings.HasSuffix(show(fs, x.Cond), ".Closed()") && len(x.Body.List) > 0 {
+					if _, ok := x.Body.List[len(x.Body.List)-1].(*ast.ReturnStmt); ok {
+						if (firstWrite == nil || x.End() < firstWrite.Pos()) && (firstGo == nil || x.End() < firstGo.Pos()) {
+							retAfterClosed = true
+						}
+					}
+				}
+			}
+			return true
+		})
+		if cleanup != nil && firstWrite != nil && firstGo != nil {
+			cbf = boolS(cleanup.End() < firstWrite.Pos() && cleanup.End() < firstGo.Pos() && retAfterClosed)
+		}
+	}
+	o.emit("remove_cleanup_before_flush", "", "bool", cbf, "true", "", "")
 
 	// ---- RemoveToxic: does every way out drop the stub of the removed toxic from link.stubs?
 	// (a splice is `link.stubs = append(link.stubs[:i], link.stubs[i+1:]...)` or a call to a method whose body is that)
